@@ -1,27 +1,36 @@
-"""Run driver: fork workers, execute run indices, shrink violations, merge results in index order."""
+"""Run driver.
+
+The parent imports fuzzylite and stays *pristine* (it never executes a trace).  Every chunk of run
+indices is executed in a child forked from the pristine parent, so a chunk is a pure function of
+(code, seed, run indices).  Each chunk child forks, while still pristine itself, a *zygote* that
+executes trace lists in forked grandchildren: violations are confirmed and shrunk there, i.e. in
+exactly the process state a fresh interpreter replaying the file will have.  If a violation needs
+traces executed earlier in the same chunk (process-global state leaking between engines of different
+runs), those traces are kept as a minimised `prelude` in the replay file.
+"""
 from __future__ import annotations
 
-import concurrent.futures as cf
 import faulthandler
 import hashlib
 import json
-import multiprocessing as mp
 import os
+import pickle
+import shutil
 import signal
+import struct
 import sys
+import tempfile
 import time
 import traceback
 
 from . import env, findings
 from .canon import jsonable
-from .core import HarnessTimeout, Sim, Stats
+from .core import HarnessTimeout, Outcome, Sim, Stats
 from .rng import run_rng
 from .shrink import shrink
 
 RUN_WALL_S = 20
-_SIM: Sim | None = None
-_STOP = None
-_FINDINGS: list[dict] = []
+CHUNK_WALL_S = 3600
 
 
 def _alarm(signum, frame):  # noqa: ARG001
@@ -32,81 +41,209 @@ def _sig_hash(sig: str) -> int:
     return int.from_bytes(hashlib.blake2b(sig.encode(), digest_size=8).digest(), "big")
 
 
-def _work(job: tuple[int, str, int, int, bool]) -> dict:
+def execute_list(sim: Sim, traces: list[dict]) -> Outcome:
+    """Execute traces in order in this process; the outcome is that of the last one."""
+    out = Outcome()
+    for t in traces:
+        env.reset_settings()
+        out = sim.execute(t)
+    env.reset_settings()
+    return out
+
+
+class Pristine:
+    """Zygote forked from a pristine process; runs trace lists in forked grandchildren."""
+
+    def __init__(self, sim: Sim) -> None:
+        self.sim = sim
+        req_r, req_w = os.pipe()
+        res_r, res_w = os.pipe()
+        self.pid = os.fork()
+        if self.pid == 0:
+            os.close(req_w)
+            os.close(res_r)
+            try:
+                self._serve(os.fdopen(req_r, "rb"), os.fdopen(res_w, "wb"))
+            finally:
+                os._exit(0)
+        os.close(req_r)
+        os.close(res_w)
+        self.w = os.fdopen(req_w, "wb")
+        self.r = os.fdopen(res_r, "rb")
+
+    def _serve(self, rf, wf) -> None:
+        signal.signal(signal.SIGALRM, signal.SIG_DFL)
+        while True:
+            try:
+                traces = pickle.load(rf)
+            except EOFError:
+                return
+            r, w = os.pipe()
+            pid = os.fork()
+            if pid == 0:
+                os.close(r)
+                res = ("error", "?", "")
+                try:
+                    signal.signal(signal.SIGALRM, _alarm)
+                    signal.alarm(RUN_WALL_S * 2)
+                    out = execute_list(self.sim, traces)
+                    signal.alarm(0)
+                    res = ("ok", out.violation, out.digest)
+                except HarnessTimeout:
+                    res = ("timeout", None, "")
+                except BaseException as e:  # noqa: BLE001
+                    res = ("error", repr(e), "")
+                try:
+                    with os.fdopen(w, "wb") as f:
+                        pickle.dump(res, f)
+                finally:
+                    os._exit(0)
+            os.close(w)
+            with os.fdopen(r, "rb") as f:
+                data = f.read()
+            os.waitpid(pid, 0)
+            wf.write(struct.pack("<I", len(data)))
+            wf.write(data)
+            wf.flush()
+
+    def run(self, traces: list[dict]):
+        pickle.dump(traces, self.w)
+        self.w.flush()
+        n = struct.unpack("<I", self.r.read(4))[0]
+        status, violation, digest = pickle.loads(self.r.read(n))
+        if status == "timeout":
+            raise HarnessTimeout()
+        if status == "error":
+            raise RuntimeError(f"pristine execution failed: {violation}")
+        return violation, digest
+
+    def close(self) -> None:
+        try:
+            self.w.close()
+            self.r.close()
+            os.waitpid(self.pid, 0)
+        except Exception:
+            pass
+
+
+class _PristineSim:
+    """Adapter so the shrinker executes candidates in pristine grandchildren (with a fixed prelude)."""
+
+    def __init__(self, sim: Sim, zyg: Pristine, prelude: list[dict]) -> None:
+        self.sim, self.zyg, self.prelude = sim, zyg, prelude
+
+    def execute(self, trace: dict, keep_log: bool = False) -> Outcome:
+        out = Outcome()
+        out.violation, out.digest = self.zyg.run(self.prelude + [trace])
+        return out
+
+    def shrink_passes(self):
+        return self.sim.shrink_passes()
+
+
+def _shrink_prelude(sim: Sim, zyg: Pristine, prelude: list[dict], trace: dict, oracle: str) -> list[dict]:
+    """Drop chunks of the prelude while the violation persists."""
+    cur = list(prelude)
+    size = max(1, len(cur) // 2)
+    t0 = time.monotonic()
+    while size >= 1 and cur and time.monotonic() - t0 < 30:
+        i = 0
+        while i < len(cur):
+            cand = cur[:i] + cur[i + size:]
+            v, _ = zyg.run(cand + [trace])
+            if v and v["oracle"] == oracle:
+                cur = cand
+            else:
+                i += size
+        size //= 2
+    return cur
+
+
+def _work(sim: Sim, job: tuple, fnd: list[dict], stop_path: str) -> dict:
     seed, tier, start, stop, do_shrink = job
-    sim = _SIM
-    assert sim is not None
+    zyg = Pristine(sim)  # forked while this chunk child is still pristine
     signal.signal(signal.SIGALRM, _alarm)
     res = {
         "start": start, "stop": stop, "stats": Stats(), "sigs": set(), "samples": [],
         "violations": [], "known": [], "errors": [], "timeouts": 0, "evals": 0, "digests": [],
     }
     seen_oracles: set[str] = set()
-    for run in range(start, stop):
-        if _STOP is not None and _STOP.is_set():
-            res["stop"] = run
-            break
-        rng = run_rng(seed, sim.pid, run)
-        try:
-            faulthandler.dump_traceback_later(RUN_WALL_S * 6, exit=True)
-            for case_no, trace in enumerate(sim.cases(rng, run, tier)):
-                trace.setdefault("property", sim.pid)
-                trace["seed"], trace["run"], trace["case"] = seed, run, case_no
-                env.reset_settings()
-                signal.alarm(RUN_WALL_S)
-                try:
-                    out = sim.execute(trace)
-                finally:
-                    signal.alarm(0)
-                res["evals"] += 1
-                res["stats"].update(out.stats)
-                res["digests"].append((run, case_no, out.digest))
-                if out.nontrivial:
-                    res["sigs"].add(_sig_hash(out.signature))
-                if len(res["samples"]) < 1 and out.nontrivial:
-                    res["samples"].append(trace)
-                if out.violation:
-                    v = out.violation
-                    known = findings.match(sim.pid, v, _FINDINGS)
-                    if known is not None:
-                        res["known"].append(known["what"])
-                        continue
-                    if v["oracle"] in seen_oracles:
-                        res["stats"].hit("violations_unshrunk")
-                        continue
-                    seen_oracles.add(v["oracle"])
-                    small, execs = (trace, 0)
-                    if do_shrink:
-                        signal.alarm(RUN_WALL_S * 4)
-                        try:
-                            small, execs = shrink(sim, trace, v["oracle"])
-                        finally:
-                            signal.alarm(0)
+    executed: list[dict] = []  # traces executed so far in this chunk (candidate prelude)
+    try:
+        for run in range(start, stop):
+            if os.path.exists(stop_path):
+                res["stop"] = run
+                break
+            rng = run_rng(seed, sim.pid, run)
+            try:
+                for case_no, trace in enumerate(sim.cases(rng, run, tier)):
+                    trace.setdefault("property", sim.pid)
+                    trace["seed"], trace["run"], trace["case"] = seed, run, case_no
                     env.reset_settings()
-                    out2 = sim.execute(small)
-                    v2 = out2.violation or v
-                    res["violations"].append({
-                        "property": sim.pid, "seed": seed, "run": run, "case": case_no,
-                        "trace": small, "shrink_execs": execs,
-                        "original_ops": len(trace.get("ops", [])),
-                        "expect": {"oracle": v2["oracle"], "op": v2["op"], "digest": out2.digest},
-                        "violation": jsonable(v2),
-                    })
-        except HarnessTimeout:
-            res["timeouts"] += 1
-        except Exception:
-            res["errors"].append(f"run={run}: " + traceback.format_exc(limit=8))
-        finally:
-            faulthandler.cancel_dump_traceback_later()
-            signal.alarm(0)
+                    signal.alarm(RUN_WALL_S)
+                    try:
+                        out = sim.execute(trace)
+                    finally:
+                        signal.alarm(0)
+                    res["evals"] += 1
+                    res["stats"].update(out.stats)
+                    res["digests"].append((run, case_no, out.digest))
+                    if out.nontrivial:
+                        res["sigs"].add(_sig_hash(out.signature))
+                        if len(res["samples"]) < 1:
+                            res["samples"].append(trace)
+                    if out.violation:
+                        v = out.violation
+                        known = findings.match(sim.pid, v, fnd)
+                        if known is not None:
+                            res["known"].append(known["what"])
+                        elif v["oracle"] in seen_oracles:
+                            res["stats"].hit("violations_unshrunk")
+                        else:
+                            seen_oracles.add(v["oracle"])
+                            res["violations"].append(_confirm_and_shrink(sim, zyg, executed, trace, v, out.digest, do_shrink))
+                    if len(executed) < 400:
+                        executed.append(trace)
+            except HarnessTimeout:
+                res["timeouts"] += 1
+            except Exception:
+                res["errors"].append(f"run={run}: " + traceback.format_exc(limit=8))
+            finally:
+                signal.alarm(0)
+    finally:
+        zyg.close()
     env.reset_settings()
     return res
+
+
+def _confirm_and_shrink(sim: Sim, zyg: Pristine, executed: list[dict], trace: dict, v: dict, digest: str, do_shrink: bool) -> dict:
+    oracle = v["oracle"]
+    prelude: list[dict] = []
+    pv, pd = zyg.run([trace])
+    standalone = bool(pv) and pv["oracle"] == oracle
+    if not standalone:
+        pv, pd = zyg.run(executed + [trace])
+        if pv and pv["oracle"] == oracle:
+            prelude = _shrink_prelude(sim, zyg, executed, trace, oracle) if do_shrink else list(executed)
+        else:
+            # not reproducible from a pristine process even with the chunk's history: report as found
+            return {"property": sim.pid, "seed": trace["seed"], "run": trace["run"], "case": trace["case"], "trace": trace,
+                    "prelude": [], "shrink_execs": 0, "original_ops": len(trace.get("ops", [])), "pristine": False,
+                    "expect": {"oracle": oracle, "op": v["op"], "digest": digest}, "violation": jsonable(v)}
+    small, execs = trace, 0
+    if do_shrink:
+        small, execs = shrink(_PristineSim(sim, zyg, prelude), trace, oracle)
+    v2, d2 = zyg.run(prelude + [small])
+    if not v2 or v2["oracle"] != oracle:  # cannot happen (the shrinker only keeps failing candidates); be safe
+        small, (v2, d2) = trace, zyg.run(prelude + [trace])
+    return {"property": sim.pid, "seed": trace["seed"], "run": trace["run"], "case": trace["case"], "trace": small,
+            "prelude": prelude, "shrink_execs": execs, "original_ops": len(trace.get("ops", [])), "pristine": True,
+            "expect": {"oracle": v2["oracle"], "op": v2["op"], "digest": d2}, "violation": jsonable(v2)}
 
 
 def run_batch(sim: Sim, tier: str, seed: int, runs: int | None = None, workers: int | None = None,
               budget_s: float | None = None, do_shrink: bool = True, stop_on_violation: bool = True,
               write_evidence: bool = True, quiet: bool = False) -> int:
-    global _SIM, _STOP, _FINDINGS
     t0 = time.monotonic()
     n_runs, budget = sim.tiers[tier]
     if runs is not None:
@@ -114,58 +251,76 @@ def run_batch(sim: Sim, tier: str, seed: int, runs: int | None = None, workers: 
     if budget_s is not None:
         budget = budget_s
     workers = workers or min(16, os.cpu_count() or 1)
-    _SIM = sim
-    _FINDINGS = findings.load()
-    ctx = mp.get_context("fork")
-    _STOP = ctx.Event()
+    fnd = findings.load()
     chunk = max(1, min(sim.chunk, (n_runs + workers - 1) // workers))
     jobs = [(seed, tier, s, min(s + chunk, n_runs), do_shrink) for s in range(0, n_runs, chunk)]
+    tmp = tempfile.mkdtemp(prefix="verif-run-", dir="/dev/shm" if os.path.isdir("/dev/shm") else None)
+    stop_path = os.path.join(tmp, "STOP")
     results: list[dict] = []
     broken = None
-    if workers == 1:
-        for job in jobs:
-            if time.monotonic() - t0 > budget:
+    running: dict[int, tuple] = {}
+    it = iter(jobs)
+    exhausted = False
+    sys.stdout.flush()
+    sys.stderr.flush()
+    try:
+        while True:
+            while not exhausted and len(running) < workers and not os.path.exists(stop_path):
+                if time.monotonic() - t0 > budget:
+                    exhausted = True
+                    break
+                job = next(it, None)
+                if job is None:
+                    exhausted = True
+                    break
+                path = os.path.join(tmp, f"{job[2]}.pkl")
+                pid = os.fork()
+                if pid == 0:
+                    code = 0
+                    try:
+                        faulthandler.dump_traceback_later(CHUNK_WALL_S, exit=True)
+                        r = _work(sim, job, fnd, stop_path)
+                        with open(path + ".tmp", "wb") as f:
+                            pickle.dump(r, f)
+                        os.replace(path + ".tmp", path)
+                    except BaseException:  # noqa: BLE001
+                        traceback.print_exc()
+                        code = 3
+                    finally:
+                        sys.stdout.flush()
+                        sys.stderr.flush()
+                        os._exit(code)
+                running[pid] = (job, path, time.monotonic())
+            if not running:
                 break
-            r = _work(job)
+            pid, status = os.waitpid(-1, os.WNOHANG)
+            if pid == 0:
+                time.sleep(0.005)
+                oldest = min(r[2] for r in running.values())
+                if time.monotonic() - oldest > CHUNK_WALL_S + 60:
+                    broken = "a chunk made no progress"
+                    break
+                continue
+            if pid not in running:
+                continue
+            job, path, _ = running.pop(pid)
+            if status != 0 or not os.path.exists(path):
+                broken = f"chunk {job[2]}..{job[3]} died (status {status})"
+                break
+            with open(path, "rb") as f:
+                r = pickle.load(f)
+            os.unlink(path)
             results.append(r)
             if r["violations"] and stop_on_violation:
-                break
-    else:
-        with cf.ProcessPoolExecutor(max_workers=workers, mp_context=ctx) as ex:
-            pending: dict = {}
-            it = iter(jobs)
-            exhausted = False
+                open(stop_path, "w").close()
+    finally:
+        for pid in list(running):
             try:
-                while True:
-                    while not exhausted and len(pending) < workers * 2 and not _STOP.is_set():
-                        if time.monotonic() - t0 > budget:
-                            exhausted = True
-                            break
-                        job = next(it, None)
-                        if job is None:
-                            exhausted = True
-                            break
-                        pending[ex.submit(_work, job)] = job
-                    if not pending:
-                        break
-                    done, _ = cf.wait(list(pending), timeout=RUN_WALL_S * 10, return_when=cf.FIRST_COMPLETED)
-                    if not done:
-                        broken = "no worker progress within %ds" % (RUN_WALL_S * 10)
-                        break
-                    for fut in done:
-                        pending.pop(fut)
-                        r = fut.result()
-                        results.append(r)
-                        if r["violations"] and stop_on_violation:
-                            _STOP.set()
-            except cf.process.BrokenProcessPool as e:
-                broken = f"worker died: {e}"
-            if broken:
-                for p in list(getattr(ex, "_processes", {}).values()):
-                    try:
-                        p.kill()
-                    except Exception:
-                        pass
+                os.kill(pid, signal.SIGKILL)
+                os.waitpid(pid, 0)
+            except Exception:
+                pass
+        shutil.rmtree(tmp, ignore_errors=True)
     results.sort(key=lambda r: r["start"])
     stats = Stats()
     sigs: set[int] = set()
@@ -194,7 +349,6 @@ def run_batch(sim: Sim, tier: str, seed: int, runs: int | None = None, workers: 
     wall = time.monotonic() - t0
     batch_digest = dh.hexdigest()[:24]
 
-    # report
     replay_dir = os.path.join(env.VERIF, "out", "replays", sim.pid)
     reported: list[str] = []
     seen: set[str] = set()
@@ -245,6 +399,9 @@ def replay(sim: Sim, path: str) -> int:
         doc = json.load(f)
     trace = doc["trace"] if "trace" in doc else doc
     exp = doc.get("expect")
+    for t in doc.get("prelude", []):
+        env.reset_settings()
+        sim.execute(t)
     env.reset_settings()
     out = sim.execute(trace, keep_log=True)
     env.reset_settings()
